@@ -25,7 +25,9 @@ def compose(rng, total, parts):
 def gen_case(rng):
     premise = rng.choice([1, 2, 2])
     n = rng.choice([2, 2, 3, 5, 10, 40, 200]) if rng.random() < 0.9 else rng.randint(2, 200)
-    avg = rng.choice([1, 3, 10, 50, 200, 2000]) if n <= 10 else rng.choice([1, 5, 30, 100])
+    if rng.random() < 0.06:
+        n = rng.choice([513, 520, 1030])   # more records than one growth step of the sequence table
+    avg = rng.choice([1, 3, 10, 50, 200, 2000]) if n <= 10 else (rng.choice([1, 5, 30, 100]) if n <= 200 else rng.choice([4, 10]))
     total = max(n, n * avg)
     info = {"premise": premise}
     if premise == 1:
@@ -127,6 +129,17 @@ def run_case(ck, paths, idx):
     sf = ck.tmp(".seqs")
     common.write_bytes(sf, "".join(s + "\n" for s in seqs))
     script += ["arr2msa 1 %s" % sf, "free 1"]
+    multi = len(seqs) >= 4 and idx % 4 == 0
+    if multi:
+        # read part 1, then a (larger) file of the other kind, which is refused, then part 2 into the same msa
+        cut = len(recs) // 2
+        fa_, fc_, fb_ = ck.tmp(".fa"), ck.tmp(".fa"), ck.tmp(".fa")
+        common.write_bytes(fa_, fmt.write_fasta(recs[:cut]))
+        common.write_bytes(fc_, fmt.write_fasta(recs[cut:]))
+        tot = sum(len(s_) for s_ in seqs)
+        other = ("".join(rng.choice("ACGT") for _ in range(3 * tot + 50)) if expect == BT_PROT else "".join(rng.choice(PROT_ONLY) for _ in range(3 * tot + 50)))
+        common.write_bytes(fb_, fmt.write_fasta([("other1", other[: len(other) // 2]), ("other2", other[len(other) // 2:])]))
+        script += ["read 2 %s" % fa_, "read 2 %s" % fb_, "read 2 %s" % fc_, "free 2"]
     r, lrecs = common.kvdrv(paths, script, scratch=ck.scratch)
     ctx = dict(info, idx=idx, expect="protein" if expect == BT_PROT else "nucleotide", input=recs if sum(len(s) for s in seqs) < 5000 else "(seed-derived)")
     if ck.proc_violations(r, ctx, allow_rcs=(0,)):
@@ -134,6 +147,14 @@ def run_case(ck, paths, idx):
     reads = [x for x in lrecs if x.get("op") == "read"]
     arr = next((x for x in lrecs if x.get("op") == "arr2msa"), None)
     obs = [(p[0], x) for p, x in zip(presentations, reads)] + ([("kalign_arr_to_msa", arr)] if arr else [])
+    if multi and len(reads) >= len(presentations) + 3:
+        r1, r2, r3 = reads[len(presentations):len(presentations) + 3]
+        ck.count("multi_step_reads_with_a_refused_file_between")
+        # the first part alone may be too small to satisfy a premise; the final state (all records of the input) must
+        if r3.get("rc") == 0 and r2.get("rc") != 0 and r1.get("rc") == 0:
+            obs.append(("two_parts_with_refused_file_between", r3))
+        else:
+            ck.count("multi_step_not_judged_other_file_was_accepted_or_part_failed")
     ufrac = info.get("fractions", {}).get("U", 0.0)
 
     def keyfor(where):
